@@ -318,7 +318,7 @@ func (rn *runner) runReader(e *RealEnd, tc *TaskCfg, t *Task) {
 			var rerr error
 			calls := 0
 			for k := 0; ; k++ {
-				if op.Abandon > 0 && len(all) >= op.Abandon {
+				if (op.Abandon > 0 && len(all) >= op.Abandon) || op.Abandon < 0 {
 					br.Note = "abandoned"
 					break
 				}
